@@ -66,4 +66,28 @@ PROPS = {
              'Non-trivial = an AppendEntries succeeded, or a crash cut/panic happened',
         assumptions=['entry payload is a function of (index, term) in the generated logs (the log-matching premise)', 'protocol version 3'],
     ),
+    'C01': dict(
+        props_file='Props/C01.v',
+        components=['c01'],
+        comp_names={6: 'node sequence incl. candidates (TimeoutNow) and electSelf', 1001: 'cluster churn histories', 1002: 'election races with held requests/responses', 1003: 'stale grants template'},
+        rule='(i) node sequences over the C06 alphabet + TimeoutNow (candidate role) + follower-timeout decision, random failures/crash cuts, diffed against the model; '
+             '(ii) real 3-5 server clusters (real goroutines, 1h timers, scripted network): election races with vote requests/responses held in flight and released in random order, '
+             'the stale-grants template (A candidate for T with grants in flight, B wins T+1 with A\'s vote, then the grants arrive), and the general churn mix (partitions, crashes between durable writes, '
+             'restarts, snapshots, transfers, duplicated/lost responses). Monitor: servers observed entering Leader state or sending AppendEntries/InstallSnapshot, grouped by term. '
+             'Non-trivial = node sequence with a grant/crash, or history with a leader and an acknowledged write',
+        assumptions=['cluster histories are real-goroutine runs: the schedule is sampled, not enumerated', 'election timers fired by the harness (VerifFireHeartbeatTimeout / VerifSetElectionTimeout)'],
+        timeout={'quick': 900, 'thorough': 7200},
+    ),
+    'C14': dict(
+        props_file='Props/C14.v',
+        components=['c14'],
+        comp_names={14: 'candidate loop: real main loop with scripted peers', 6: 'node sequences (pre-vote / vote handlers)', 1004: 'isolation and rejoin with real timers'},
+        rule='(i) candidate sessions: one real server with its real main loop; every RequestPreVote/RequestVote call blocks until the script answers (grant / refuse / higher term / stale term / error), '
+             'election timeouts forced through the hook; role, term, durable term and vote, advertised leader, transfer flag and the stable-store trace after each answer are diffed against the model of runCandidate; '
+             'configurations: 3 and 5 voters, 3 voters + non-voter, single voter, self non-voter with TimeoutNow; pre-vote on/off. '
+             '(ii) node sequences with pre-vote requests. (iii) real clusters with 60 ms timers: a minority (1-2 servers) isolated for 0.3-0.8 s then reconnected; monitors: isolated term unchanged, '
+             'no RequestVote from the rejoiner, cluster term unchanged. Non-trivial = session with at least one answered request / history with a leader and an ack',
+        assumptions=['answers are consumed by the loop in the order the script releases them (1.5 ms settle between answers)', 'real-timer scenarios depend on the machine keeping up with 5 ms heartbeats (run 4 at a time)'],
+        timeout={'quick': 900, 'thorough': 7200},
+    ),
 }
